@@ -45,6 +45,8 @@ type Input struct {
 	Ways *Ways `json:"ways,omitempty"`
 	// case class PLACE (place.go): HOW the hook file is present in the hooks tree; the tree is Parts
 	Place *PlaceCfg `json:"place,omitempty"`
+	// case class BOUND (bound.go): one output file holds  first document ++ tail, the first document of a chosen length
+	Bound *BoundCfg `json:"bound,omitempty"`
 }
 
 // EnvVar is one variable of the operator's own environment.  Var 0..5 are the six contract
@@ -202,7 +204,12 @@ func envView(in Input, c *opsim.Call, tmpDir, foreignDir string) []EnvVal {
 	return out
 }
 
-func (in Input) text() string { return strings.Join(in.Parts, "") }
+func (in Input) text() string {
+	if in.Bound != nil {
+		return in.Bound.text()
+	}
+	return strings.Join(in.Parts, "")
+}
 
 type Obs struct {
 	Started        bool       `json:"started"`
@@ -504,6 +511,9 @@ func Render(in Input, obs *Obs, crash string) core.Case {
 	if in.Ways != nil {
 		coqIn = fmt.Sprintf("CWays (mkWI %s %s %d %s %s) (", core.CoqZ(int64(in.Exit)), core.CoqBool(in.Concurrent), in.NameLen, coqEnv, in.coqJobs())
 	}
+	if in.Bound != nil {
+		coqIn = in.coqBound()
+	}
 	c.Coq = fmt.Sprintf("%s mkOb %s %s %s %s %s %s %d %d %d %s %s %s %s %s)", coqIn,
 		core.CoqBool(o.Started), core.CoqBool(o.CwdIsHookDir), core.CoqBool(o.EnvOK), core.CoqBool(o.ContextMatches),
 		core.CoqBool(o.FilesEmpty), core.CoqBool(o.PathsDistinct), o.TmpDuring, st, max0(o.TmpAfter),
@@ -511,7 +521,9 @@ func Render(in Input, obs *Obs, crash string) core.Case {
 		core.CoqList(o.Envs, func(v []EnvVal) string { return core.CoqList(v, coqEnvVal) }), core.CoqBool(o.ForeignTouched))
 	c.JSON = map[string]any{"obs": o, "crash": crash}
 	c.Key = fmt.Sprintf("%d/%s/%s/%s/%s/%v/%d", in.Exit, in.Metrics, in.Patch, in.Admission, in.Conversion, in.Concurrent, in.NameLen)
-	if in.TextFile != "" {
+	if in.Bound != nil {
+		c.Key += in.boundKey()
+	} else if in.TextFile != "" {
 		c.JSON = map[string]any{"obs": o, "crash": crash, in.TextFile + "_text": in.text()}
 		c.Key += "/" + in.TextFile + "/" + in.text()
 	}
@@ -526,7 +538,9 @@ func Render(in Input, obs *Obs, crash string) core.Case {
 	if in.NameLen != 0 {
 		c.Tags = append(c.Tags, "longname")
 	}
-	if in.TextFile != "" {
+	if in.Bound != nil {
+		c.Tags = append(c.Tags, in.boundTags()...)
+	} else if in.TextFile != "" {
 		c.Tags = append(c.Tags, "text:"+in.TextFile, "mut:"+in.Mut, "mut:"+in.TextFile+":"+in.Mut)
 	}
 	c.Tags = append(c.Tags, in.envTags()...)
@@ -716,6 +730,8 @@ func Gen(r *core.Rng, tier string) ([]core.In[Input], bool) {
 			add(genPlaceCase(pr), "place-random")
 		}
 	}
+	// first document ++ tail, the first document of every length around the read boundaries of the JSON decoder
+	genBound(r.Fork(), tier, add)
 	exits := []int{0, 1, 2, 137, -9, -15, -11}
 	if tier == "quick" {
 		genTexts(r.Fork(), "metrics", 126, add)
@@ -851,7 +867,7 @@ func spread(ins, concs []core.In[Input]) []core.In[Input] {
 var _ = sort.Ints
 
 var Driver = core.Driver[Input, Obs]{
-	Spec: core.Spec{Property: "C12", Imports: []string{"C12_Model", "C12_Spec", "C12_ConcModel", "C12_ConcSpec", "C12_FsModel", "C12_FsSpec", "C12_PlaceModel", "C12_PlaceSpec", "C12_Corr"}, Corr: "C12_Corr", ShrinkKey: "parts",
-		Rule: "one hook with two schedule bindings in two queues run by the real operator; the scripted hook reports cwd, environment, context file, initial content of the output files and the temp-dir listing, then ends with exit code in {0,1,2,137} and each of the four output files in {empty, valid, truncated, wrong type}; observed: task status, temp dir afterwards, whether the metric / the patch took effect, path uniqueness across two concurrent executions; quick = every exit code x every single-file state + 60 random combinations + corpus; thorough = the full product (exhaustive); the longname stream uses hook names whose temp-file names straddle the 255-byte file-name limit; every case is non-trivial and distinct by its parameters; TEXT cases: one of the metrics / admission-response / conversion-response files holds a literal text (the model reads it byte by byte): valid texts (1-4 metric operations in the documented forms, one response object; varied whitespace, key order, escapes, UTF-8, number forms) and texts broken by a mutation grammar (tags mut:<kind>): trunc, del/ins/dup of one structural byte, stray closer/opener/separator at a value boundary, value of another JSON type, garbage after valid, whitespace only, only a closer, control byte in a string, bad escape, bad number, case-changed keys, unknown keys, null values, duplicate keys, violated metric rules, non-object documents; a fixed corpus holds texts of every kind; quick = corpus + 180 generated texts, thorough = corpus + 5670, search = corpus + 1680; distinct = distinct by parameters and text; ENV cases (tags env:contract / env:unrelated / env:both, envvar:<NAME>, envfile:<absent|empty|content>, envdup): the operator's OWN environment is set (os.Setenv in the operator's process before it loads the hook, restored afterwards; contract variables the case does not mention are removed) to 1-4 variables: the six contract variables with foreign values (a path outside the temp directory: no such file / an empty file / a file with content) and unrelated variables; the scripted hook reports what it finds under the six variables and under every variable of the case, classified as this execution's own file of kind f / the operator's value / absent / other, compared with the model's child environment; after the run the foreign files are checked for changes; quick = 16 fixed + 56 generated, thorough = 16 + 72 exhaustive single-variable cases + 1500, search = 16 + 300; CONC cases (tags class:conc, conc-queues:<n>, conc-procs:<GOMAXPROCS>, conc-hold, conc-biggest:<size class>, conc-same-hook, conc-failing-hook): the real Hook.Run called from one goroutine per queue (2-12 queues, 2-6 tasks each, the same hook in several queues and different hooks, one hook always exiting non-zero), free running or in lockstep rounds with every hook process of a round held open, GOMAXPROCS 1 / 2 / 4 / unchanged, a scenario of n executions run up to max(1, 48/n) times (the first run with an execution that is not as expected is handed on, else the last); a task's contexts are segments of schedule / onStartup / group contexts, documents from 2 bytes to about 400 KiB; which hook-process report belongs to which call is established through the object-patch file / the exit status, never through the context file; every execution is judged by itself (what ITS hook process read, byte for byte, against ITS task; own directory, own empty output files, names unique over all executions of the case, outputs read back, temp directory empty at the end and holding five files per open execution in a lockstep round); delta debugging drops tasks; quick = 5 fixed + 36 generated, thorough = 5 + 600, search = 5 + 150; WAYS cases (tags class:ways, way:<how>, way:<file>:<how>, way:<how>:<outcome class>, way-steps:<1|2|3+>): HOW the hook writes each output file - in place, append only (never truncates), a scratch file beside it renamed onto the path, removed and created again, through a second hard link, a symbolic link put at the path (target outside the temp directory), removed for good - and cut offsets that split the content into chunks written one open/write/close each; the scripted hook performs exactly these system calls (cmd/hookstub WaySpec, handed over in the files map under WAY:<VAR>), the model runs the same operations on a file system of names, inodes and links and reads the four paths back (C12_FsModel), the predicate is C12_Spec.P for what is at the paths at exit (C12_FsSpec); the temp directory must end empty for every way; streams: ways-systematic = every output file x {valid, truncated, wrong type, empty} x every way (with 0-3 cuts) + removal per file with exit 0 and 1, ways-text = every text of the fixed corpus (every mutation kind of every JSON file) written in a way (the six ways in rotation; thorough: every text in every way), ways-random = all four files at once with random outcome classes / generated texts, ways and cuts, now and then a non-zero exit, a concurrent execution, contract variables in the operator's environment, a removed file; quick = 2 witnesses + 104 systematic + 94 texts + 60 random, thorough = 2 + 280 + 564 + 1296 (product of the ways over four valid files) + 3000, search = 2 + 104 + 94 + 600; PLACE cases (tags class:place, place-layout:<layout>, place-root:<plain|through-link>, place-entry:<regular|link-rel|link-abs>, place-links:<n>, place-hooks:<n>, place-started / place-not-started, place-settings:<seen|none>): HOW the hook file is present in the hooks tree - a tree of directories, script files and symbolic links below a sandbox (the parts of the case, applied with plain system calls, then SCANNED without following links: the scan is what the model gets), the hooks found by the real utils_file.RecursiveGetExecutablePaths, a hook.Hook made of every path found as Manager.loadHook does, the real Hook.Run for each; every script reports (into $VERIF_C12_REPORT) its content number, $0, its physical working directory and what ./settings holds; the working directory is mapped to a scanned directory by device and inode; the model (C12_PlaceModel: namei over entries, links absolute / relative with .., launch = chdir(dir part), execve(path)) is compared on started / failed / argv0 / program / working directory / settings / temp files, the predicate (C12_PlaceSpec) demands the directory the hook was found in (descent through real directories) and its settings file; place-systematic = layouts regular, same-dir, configmap (..data double link, with linked and with own settings), dangling, loop, dir-link-in-tree, outside, outside-no-own-settings, inside, lib, shared (one script linked into three hook directories), chain (three links over four directories), via-dir-link, not-executable, to-directory x relative / absolute targets x hooks root plain / reached through a link = 50, + root-is-link (the hooks root itself a link: nothing is found, nothing runs; trivial); place-exhaustive = hooks root plain / through a link x hook directory the root itself / one / two levels down x entry regular / link to the same directory / a sibling hook directory / lib / outside / outside through a link to a directory / a chain of two / a chain of three x relative / absolute x own ./settings none / regular / a link x settings beside the target none / regular = 540 (quick: every sixth = 90); place-random = random trees (1-4 hook directories also nested, 1-3 scripts inside / outside / in lib / in a hidden directory, entries regular or linked, chains, settings regular / linked / absent, failing entries): quick 70, thorough 6000, search 1200"},
+	Spec: core.Spec{Property: "C12", Imports: []string{"C12_Model", "C12_Spec", "C12_ConcModel", "C12_ConcSpec", "C12_FsModel", "C12_FsSpec", "C12_PlaceModel", "C12_PlaceSpec", "C12_BoundModel", "C12_BoundSpec", "C12_Corr"}, Corr: "C12_Corr", ShrinkKey: "parts",
+		Rule: "one hook with two schedule bindings in two queues run by the real operator; the scripted hook reports cwd, environment, context file, initial content of the output files and the temp-dir listing, then ends with exit code in {0,1,2,137} and each of the four output files in {empty, valid, truncated, wrong type}; observed: task status, temp dir afterwards, whether the metric / the patch took effect, path uniqueness across two concurrent executions; quick = every exit code x every single-file state + 60 random combinations + corpus; thorough = the full product (exhaustive); the longname stream uses hook names whose temp-file names straddle the 255-byte file-name limit; every case is non-trivial and distinct by its parameters; TEXT cases: one of the metrics / admission-response / conversion-response files holds a literal text (the model reads it byte by byte): valid texts (1-4 metric operations in the documented forms, one response object; varied whitespace, key order, escapes, UTF-8, number forms) and texts broken by a mutation grammar (tags mut:<kind>): trunc, del/ins/dup of one structural byte, stray closer/opener/separator at a value boundary, value of another JSON type, garbage after valid, whitespace only, only a closer, control byte in a string, bad escape, bad number, case-changed keys, unknown keys, null values, duplicate keys, violated metric rules, non-object documents; a fixed corpus holds texts of every kind; quick = corpus + 180 generated texts, thorough = corpus + 5670, search = corpus + 1680; distinct = distinct by parameters and text; ENV cases (tags env:contract / env:unrelated / env:both, envvar:<NAME>, envfile:<absent|empty|content>, envdup): the operator's OWN environment is set (os.Setenv in the operator's process before it loads the hook, restored afterwards; contract variables the case does not mention are removed) to 1-4 variables: the six contract variables with foreign values (a path outside the temp directory: no such file / an empty file / a file with content) and unrelated variables; the scripted hook reports what it finds under the six variables and under every variable of the case, classified as this execution's own file of kind f / the operator's value / absent / other, compared with the model's child environment; after the run the foreign files are checked for changes; quick = 16 fixed + 56 generated, thorough = 16 + 72 exhaustive single-variable cases + 1500, search = 16 + 300; CONC cases (tags class:conc, conc-queues:<n>, conc-procs:<GOMAXPROCS>, conc-hold, conc-biggest:<size class>, conc-same-hook, conc-failing-hook): the real Hook.Run called from one goroutine per queue (2-12 queues, 2-6 tasks each, the same hook in several queues and different hooks, one hook always exiting non-zero), free running or in lockstep rounds with every hook process of a round held open, GOMAXPROCS 1 / 2 / 4 / unchanged, a scenario of n executions run up to max(1, 48/n) times (the first run with an execution that is not as expected is handed on, else the last); a task's contexts are segments of schedule / onStartup / group contexts, documents from 2 bytes to about 400 KiB; which hook-process report belongs to which call is established through the object-patch file / the exit status, never through the context file; every execution is judged by itself (what ITS hook process read, byte for byte, against ITS task; own directory, own empty output files, names unique over all executions of the case, outputs read back, temp directory empty at the end and holding five files per open execution in a lockstep round); delta debugging drops tasks; quick = 5 fixed + 36 generated, thorough = 5 + 600, search = 5 + 150; WAYS cases (tags class:ways, way:<how>, way:<file>:<how>, way:<how>:<outcome class>, way-steps:<1|2|3+>): HOW the hook writes each output file - in place, append only (never truncates), a scratch file beside it renamed onto the path, removed and created again, through a second hard link, a symbolic link put at the path (target outside the temp directory), removed for good - and cut offsets that split the content into chunks written one open/write/close each; the scripted hook performs exactly these system calls (cmd/hookstub WaySpec, handed over in the files map under WAY:<VAR>), the model runs the same operations on a file system of names, inodes and links and reads the four paths back (C12_FsModel), the predicate is C12_Spec.P for what is at the paths at exit (C12_FsSpec); the temp directory must end empty for every way; streams: ways-systematic = every output file x {valid, truncated, wrong type, empty} x every way (with 0-3 cuts) + removal per file with exit 0 and 1, ways-text = every text of the fixed corpus (every mutation kind of every JSON file) written in a way (the six ways in rotation; thorough: every text in every way), ways-random = all four files at once with random outcome classes / generated texts, ways and cuts, now and then a non-zero exit, a concurrent execution, contract variables in the operator's environment, a removed file; quick = 2 witnesses + 104 systematic + 94 texts + 60 random, thorough = 2 + 280 + 564 + 1296 (product of the ways over four valid files) + 3000, search = 2 + 104 + 94 + 600; PLACE cases (tags class:place, place-layout:<layout>, place-root:<plain|through-link>, place-entry:<regular|link-rel|link-abs>, place-links:<n>, place-hooks:<n>, place-started / place-not-started, place-settings:<seen|none>): HOW the hook file is present in the hooks tree - a tree of directories, script files and symbolic links below a sandbox (the parts of the case, applied with plain system calls, then SCANNED without following links: the scan is what the model gets), the hooks found by the real utils_file.RecursiveGetExecutablePaths, a hook.Hook made of every path found as Manager.loadHook does, the real Hook.Run for each; every script reports (into $VERIF_C12_REPORT) its content number, $0, its physical working directory and what ./settings holds; the working directory is mapped to a scanned directory by device and inode; the model (C12_PlaceModel: namei over entries, links absolute / relative with .., launch = chdir(dir part), execve(path)) is compared on started / failed / argv0 / program / working directory / settings / temp files, the predicate (C12_PlaceSpec) demands the directory the hook was found in (descent through real directories) and its settings file; place-systematic = layouts regular, same-dir, configmap (..data double link, with linked and with own settings), dangling, loop, dir-link-in-tree, outside, outside-no-own-settings, inside, lib, shared (one script linked into three hook directories), chain (three links over four directories), via-dir-link, not-executable, to-directory x relative / absolute targets x hooks root plain / reached through a link = 50, + root-is-link (the hooks root itself a link: nothing is found, nothing runs; trivial); place-exhaustive = hooks root plain / through a link x hook directory the root itself / one / two levels down x entry regular / link to the same directory / a sibling hook directory / lib / outside / outside through a link to a directory / a chain of two / a chain of three x relative / absolute x own ./settings none / regular / a link x settings beside the target none / regular = 540 (quick: every sixth = 90); place-random = random trees (1-4 hook directories also nested, 1-3 scripts inside / outside / in lib / in a hidden directory, entries regular or linked, chains, settings regular / linked / absent, failing entries): quick 70, thorough 6000, search 1200; BOUND cases (tags class:bound, bound-file:<file>, bound-style:<ws|string|members>, bound-tail:<tail>, bound-len:<class>, bound:<file>:<tail>): WHERE a malformation sits relative to how the parsers read - ONE of the four output files (metrics, admission / validating response, conversion response, object patch) holds  first document ++ tail: a well-formed first document of an exactly chosen length (brought to the length by white space inside the object, by one long string - message / failedMessage / label value / data value - or by many small members), lengths 480..544, 1000..1060, 1500..1570, 2040..2056, 3576..3592, 4090..4100 (encoding/json's Decoder has read 512, 1536, 3584 bytes after its first reads), and a tail: nothing, a newline, white space, a second document (a second verdict appended) directly / after a newline / after 1100 newlines, a lone closing brace directly / on a line of its own / after 600 blanks, a word directly / on a line of its own; the scripted hook writes the raw bytes; the text goes to Coq in segments (chunk, repetitions); the model reads the file as one byte string (JsonText; the patch file through C12_BoundModel.patch_text_kind, JSON path only - every generated patch tail that is not a JSON stream is also refused by the YAML fallback), the predicate is C12_Spec.P and C12_BoundSpec.P_bound (response files: success iff the tail is white space only; metrics / patch: iff the tail is itself a well-formed sequence); streams: bound-corpus 6, bound-systematic = lengths one byte around 512 / 1536 / 3584 x 4 files x {nl-doc2, doc2, closer, ws} = 160 (thorough instead: every length x file x tail = 10648), bound-tails = every tail after a first document of 512 bytes x 4 files + after 1536 bytes in the patch file = 55, bound-lengths = every length 480..544 and every third of the others, file / style / non-white tail by a fixed scramble of the index (search: every length), bound-random = random length (one in five anywhere in 40..4240) x file x style x tail, one in sixteen with a non-zero exit: quick 60, thorough 6000, search 1200"},
 	Gen: Gen, Run: Run, Render: Render, PerShard: 60, Workers: 14, CaseTimout: 40 * time.Second,
 }
